@@ -147,6 +147,15 @@ class Interp:
                 if isinstance(v, X) and v.constval() is not None: return v
             except Exception:
                 pass
+        # a literal table (dict / tuple / list) of constants and module-level functions, e.g. a dispatch table of kernels
+        if isinstance(node, (ast.Dict, ast.Tuple, ast.List)) and all(isinstance(n, (ast.Dict, ast.Tuple, ast.List, ast.Constant, ast.Name, ast.expr_context)) for n in ast.walk(node)) \
+                and all(n.id in g for n in ast.walk(node) if isinstance(n, ast.Name)):
+            try:
+                st0 = St(); st0.env.update(g)
+                v = s.eval(node, st0)
+                if not is_opaque(v): return v
+            except Exception:
+                pass
         return Opaque(f"module constant {nm}")
 
     # ------------------------------------------------------------------ classes
